@@ -96,6 +96,10 @@ func init() {
 				p.TrustedIPs = []string{"127.0.0.1", "::1", "10.0.0.0/8"}
 			}},
 			{"h2-front", func(p *proxyCfg) {}},
+			{"http-semicolons", func(p *proxyCfg) {
+				p.BindAddress = fmt.Sprintf("127.0.0.1:%d", freePort())
+				p.AllowQuerySemicolons = true
+			}},
 		}
 		for _, lk := range kinds {
 			cfg := proxyCfg{InjectRequest: defaultInject(), Htpasswd: map[string]string{"bob": "pw"}, SkipJwtBearer: true,
@@ -114,7 +118,7 @@ func init() {
 			var base string
 			var cl *http.Client
 			switch lk.name {
-			case "http":
+			case "http", "http-semicolons":
 				go e.proxy.Start()
 				base = "http://" + cfg.BindAddress
 				cl = &http.Client{Timeout: 20 * time.Second, CheckRedirect: noRedirect}
@@ -196,6 +200,28 @@ func init() {
 			if a := realDo(cl, "GET", base+"/files/hello.txt", tHost, "", nil, ""); a.err == nil && (a.status != 200 || !strings.HasPrefix(a.body, "hello file upstream")) {
 				c.violation("HARNESS", "file upstream not served", in(map[string]interface{}{"status": a.status}))
 			}
+			// ---- C17: the request target reaches the upstream unchanged — semicolons in the query included, whether or not the
+			// proxy itself accepts them as separators (--allow-query-semicolons is about how the PROXY reads its own parameters)
+			if lk.name == "http" || lk.name == "http-semicolons" {
+				for _, tgt := range []string{"/app/search?a=1;b=2&c=3", "/app/s?q=a%3Bb;c", "/app/plain?x=1&y=2", "/app/m;v=1/x;y?z=1;w"} {
+					for _, uu := range e.ups {
+						uu.take()
+					}
+					a := realDo(cl, "GET", base+tgt, tHost, small, nil, "")
+					got := "(not forwarded)"
+					for _, uu := range e.ups {
+						for _, h := range uu.take() {
+							got = h.RequestURI
+						}
+					}
+					c.casen("real|"+lk.name+"|target|"+tgt, got)
+					c.count("c17:real-target")
+					if a.err != nil || got != tgt {
+						c.violation("C17", "an authenticated request's target did not reach the upstream unchanged through the proxy's own server",
+							in(map[string]interface{}{"target": tgt, "upstream_saw": got, "status": a.status, "allow_query_semicolons": cfg.AllowQuerySemicolons}))
+					}
+				}
+			}
 			// ---- C10: sessions of every size come back over a real connection
 			if lk.name != "unix" {
 				for _, kb := range []int{0, 2, 5, 9, 13, 17, 24} {
@@ -247,6 +273,6 @@ func init() {
 			}
 			e.close()
 		}
-		c.close([]string{"listener:http", "listener:tls", "listener:unix", "listener:h2-front", "c19:real-request", "c10:real-5+cookies", "c01:unix-peer", "proto:HTTP/2.0", "proto:HTTP/1.1"})
+		c.close([]string{"listener:http", "listener:tls", "listener:unix", "listener:h2-front", "c19:real-request", "c10:real-5+cookies", "c01:unix-peer", "proto:HTTP/2.0", "proto:HTTP/1.1", "c17:real-target", "listener:http-semicolons"})
 	})
 }
